@@ -137,12 +137,40 @@ func TestC01(t *testing.T) {
 		ec := exactCountCases()
 		if !doReplay(h, "exact-count", checkExactCount) {
 			for _, c := range ec {
+				h.R.Pending("exact-count", c)
 				if err := safely(checkExactCount, c); err != nil {
 					h.fail("exact-count", c, err)
 				}
 			}
 			h.R.AddExact(int64(len(ec)), int64(len(ec)))
 			h.R.Count("exact-count cases (pools purged, N in {255,256,65535,65536} warm-up parses, then probes)", int64(len(ec)))
+		}
+	}
+	if env.Shards <= 1 {
+		// inputs that lie at the edge of accessible memory, and inputs longer than 4 GiB
+		gc := guardCases()
+		if !doReplay(h, "guarded", checkGuarded) {
+			for _, c := range gc {
+				h.R.Pending("guarded", c)
+				if err := safely(checkGuarded, c); err != nil {
+					h.fail("guarded", c, err)
+				}
+			}
+			h.R.AddExact(int64(len(gc)), int64(len(gc)))
+			h.R.Count("strings parsed from a copy flush with an inaccessible page (every prefix of the representative vectors at the page end; suffixes at the page start)", int64(len(gc)))
+			h.R.Sample("guarded", gc[len(gc)/2])
+		}
+		hc := hugeCases()
+		if !doReplay(h, "huge", checkHuge) {
+			for _, c := range hc {
+				h.R.Pending("huge", c)
+				if err := safely(checkHuge, c); err != nil {
+					h.fail("huge", c, err)
+				}
+			}
+			h.R.AddExact(int64(len(hc)), int64(len(hc)))
+			h.R.Count("inputs of 2 GiB / 4 GiB and a few bytes (untouched zero pages behind a valid vector; 64-bit processes only)", int64(len(hc)))
+			h.R.Sample("huge", hc[0])
 		}
 	}
 	Rapid(h, "string", n, func(rt *rapid.T) gen.Str {
